@@ -7,7 +7,6 @@ package main
 // resolvers installed into graph.Stub.
 
 import (
-	"context"
 	"fmt"
 	"math/big"
 	"reflect"
@@ -254,5 +253,3 @@ func newStub(log *resolverLog) *graph.Stub {
 	}
 	return st
 }
-
-var _ = context.Background
